@@ -2,8 +2,11 @@ package rules
 
 import (
 	"fmt"
+	"go/constant"
 	"go/token"
+	"go/types"
 	"math"
+	"regexp/syntax"
 	"strings"
 
 	"golang.org/x/tools/go/ssa"
@@ -21,6 +24,7 @@ func c16(r *core.Run) {
 	r.Explanation = "Static rules over the two registration handlers (rns.MsgRegister, rns.MsgRegisterName): the debit and the POL credit are one SSA value that depends on the TLD cost table and the requested years; bank errors propagate to a failing return; every reaching definition of the stored Names.Expires adds a base (current height, or the old expiry only under a live comparison); a found record owned by someone else is overwritten only behind an expired comparison. Decides the structural causes of 'charges the listed price and yields a live name for the term', not the numeric '>= Y years'."
 	r.Assumptions = []string{T1, T3, T4}
 	r.NotDecided = []string{"the numeric bound 'unexpired for at least Y years'", "exact price tiers (control dependence on name length)"}
+	r.Rule("C16/R10", "the price tier is selected by the name's length in characters: where the pricing function measures the name with the byte-length builtin len, every regular expression a registration's ValidateBasic accepts names by admits single-byte (ASCII) characters only, so byte length = character count")
 	r.Rule("C16/R9", "no dead price tier: wherever the rns module looks a value up in a package-level table, the interval the dominating guards leave for the index covers every written entry of the table (an entry no admitted index selects is a listed price that is never charged)")
 	r.Rule("C16/R8", "the price (cost x years) and the term (years x blocks-per-year + base height) are computed only behind division-form overflow tests on the message's year count (or on paths where it is not positive)")
 	r.Rule("C16/R7", "the TLD of a requested name is recognised by a suffix test (name[len(name)-len(tld):] == tld or strings.HasSuffix) in the keeper's parser and in the validation copy: the recognised TLD is what is cut off, priced and stored")
@@ -30,6 +34,7 @@ func c16(r *core.Run) {
 	r.Rule("C16/R4", "success implies the effect: every committing return of a registration has debited the registrant and written the name record")
 	r.Rule("C16/R5", "the name record loaded for the liveness/ownership decision and the name record written are keyed by the same terms (same normalisation of the requested name on both sides)")
 	r.Rule("C16/R3", "a found name owned by another account is overwritten only behind an expired comparison (same guard row as C08/R1 for registration)")
+	priceLengthIsCharacterCount(r, "C16/R10")
 	heightDimensions(r, "C16/R6", moduleFuncs(p, "rns"), 3)
 	tldRecognisers(r, "C16/R7")
 	r.Extra["guarded_table_lookups"] = tableEntriesReachable(r, "C16/R9", moduleFuncs(p, "rns"))
@@ -617,4 +622,143 @@ func lastAssignment(p *core.Program, fn *ssa.Function, st *ssa.Store, all []*ssa
 		}
 	}
 	return false
+}
+
+// priceLengthIsCharacterCount: the listed price is per length in characters. The pricing function measures with
+// len(string) (bytes); that is the character count only while validation admits nothing but ASCII. The rule parses
+// the constant patterns compiled in the rns types package (regexp/syntax) and requires every character class, literal
+// and wildcard to stay below 0x80 — unless no pricing function measures bytes (then nothing is demanded).
+func priceLengthIsCharacterCount(r *core.Run, rule string) {
+	p := r.Prog
+	// 1. pricing functions: rns keeper functions that apply builtin len to a string and read the TLD cost table
+	//    (directly or through one call)
+	readsTable := func(fn *ssa.Function) bool {
+		hit := false
+		allInstrs(fn, func(in ssa.Instruction) {
+			for _, op := range in.Operands(nil) {
+				if op == nil || *op == nil {
+					continue
+				}
+				if g, ok := (*op).(*ssa.Global); ok && g.Name() == "TLDCost" {
+					hit = true
+				}
+			}
+		})
+		return hit
+	}
+	var pricing []*ssa.Function
+	byteLenAt := ""
+	for _, fn := range moduleFuncs(p, "rns") {
+		if !strings.HasSuffix(core.FnPkgPath(fn), "x/rns/keeper") {
+			continue
+		}
+		table := readsTable(fn)
+		lenPos := ""
+		allInstrs(fn, func(in ssa.Instruction) {
+			c, ok := in.(ssa.CallInstruction)
+			if !ok {
+				return
+			}
+			if b, ok := c.Common().Value.(*ssa.Builtin); ok && b.Name() == "len" && len(c.Common().Args) == 1 {
+				if bt, ok := c.Common().Args[0].Type().Underlying().(*types.Basic); ok && bt.Info()&types.IsString != 0 {
+					if _, isParam := c.Common().Args[0].(*ssa.Parameter); isParam {
+						lenPos = p.InstrPos(in)
+					}
+				}
+			}
+			if !table {
+				for _, cal := range p.Callees(c) {
+					if readsTable(cal) {
+						table = true
+					}
+				}
+			}
+		})
+		if table && lenPos != "" && fn.Signature.Results().Len() > 0 {
+			if bt, ok := fn.Signature.Results().At(0).Type().Underlying().(*types.Basic); ok && bt.Info()&types.IsInteger != 0 {
+				pricing = append(pricing, fn)
+				byteLenAt = lenPos
+			}
+		}
+	}
+	// 2. constant patterns compiled in x/rns/types
+	type pat struct{ src, pos string }
+	var pats []pat
+	for _, fn := range p.Funcs {
+		if !strings.HasSuffix(core.FnPkgPath(fn), "x/rns/types") {
+			continue
+		}
+		allInstrs(fn, func(in ssa.Instruction) {
+			c, ok := in.(ssa.CallInstruction)
+			if !ok {
+				return
+			}
+			name := core.CalleeFullName(c)
+			if name == "regexp.MustCompile" || name == "regexp.Compile" || name == "regexp.MatchString" {
+				if k, ok := c.Common().Args[0].(*ssa.Const); ok && k.Value != nil {
+					pats = append(pats, pat{constant.StringVal(k.Value), p.InstrPos(in)})
+				} else {
+					r.Undecided(rule, "rns:name-pattern:not-constant", p.InstrPos(in), "a name pattern is not a constant string")
+				}
+			}
+		})
+	}
+	if sp := p.SSAPkg[core.ModPath+"/x/rns/types"]; sp != nil {
+		if ini := sp.Func("init"); ini != nil {
+			allInstrs(ini, func(in ssa.Instruction) {
+				c, ok := in.(ssa.CallInstruction)
+				if !ok {
+					return
+				}
+				if name := core.CalleeFullName(c); name == "regexp.MustCompile" {
+					if k, ok := c.Common().Args[0].(*ssa.Const); ok && k.Value != nil {
+						for _, q := range pats {
+							if q.pos == p.InstrPos(in) {
+								return
+							}
+						}
+						pats = append(pats, pat{constant.StringVal(k.Value), p.InstrPos(in)})
+					}
+				}
+			})
+		}
+	}
+	r.Floor(rule, len(pats), 1, "constant name patterns compiled in x/rns/types")
+	if len(pricing) == 0 {
+		r.Ok(rule, "rns:price-length", "", "no pricing function measures the name with the byte-length builtin: nothing is demanded of the validation patterns")
+		return
+	}
+	for _, q := range pats {
+		re, err := syntax.Parse(q.src, syntax.Perl)
+		if err != nil {
+			r.Undecided(rule, "rns:name-pattern:unparsable", q.pos, err.Error())
+			continue
+		}
+		wide := ""
+		var walk func(x *syntax.Regexp)
+		walk = func(x *syntax.Regexp) {
+			switch x.Op {
+			case syntax.OpAnyChar, syntax.OpAnyCharNotNL:
+				wide = "a wildcard"
+			case syntax.OpLiteral:
+				for _, c := range x.Rune {
+					if c >= 0x80 {
+						wide = fmt.Sprintf("the literal %q", c)
+					}
+				}
+			case syntax.OpCharClass:
+				for i := 0; i+1 < len(x.Rune); i += 2 {
+					if x.Rune[i+1] >= 0x80 {
+						wide = fmt.Sprintf("the class range %q-%q", x.Rune[i], x.Rune[i+1])
+						break
+					}
+				}
+			}
+			for _, s := range x.Sub {
+				walk(s)
+			}
+		}
+		walk(re)
+		r.Check(wide == "", rule, "rns:name-pattern-single-byte", q.pos, "pattern "+q.src+" admits ASCII only; "+core.FnName(pricing[0])+" measures bytes at "+byteLenAt, "the name pattern "+q.src+" admits multi-byte characters ("+wide+") while "+core.FnName(pricing[0])+" selects the price tier by byte length (len at "+byteLenAt+"): a short name in a multi-byte script is charged the tier of a longer name")
+	}
 }
